@@ -289,3 +289,247 @@ Example c17_tabix_example :
   let i := mktbi (Some h) [mkbref [(4681, [(10, 20)])] (Some (mkmeta 10 20 1 0)) [10]] None in
   read_tbi (w_tbi_bytes i) = Some (reread_tbi i) /\ reread_tbi i <> i.
 Proof. cbv zeta. split; [vm_compute; reflexivity|]. intros E. discriminate E. Qed.
+
+(* ---- the same round trips THROUGH THE READERS' I/O: the readers as read programs (C12's NV.Io.Prog
+   / IndexProg / CsiProg, C16's NV.Async.IndexRead / CsiRead; imported read-only) run over a source
+   that delivers the written bytes in ANY way -- short reads and Interrupted events of any script,
+   raw or through a BufReader of any capacity (sync), Pending/short polls of any script (async).
+   Each corollary composes a layout round trip above with the bridge "program on the bytes =
+   C17's whole-buffer reader" proved by the owner of the program.  Formats whose bridge is proved:
+   gzi, BAI (sync + async), fai (sync), CSI (async), the CSI-aux/tabix header (sync).  Not bridged
+   (oracle only): the async tabix, fai and crai readers, the sync CSI/tabix/crai programs. ---- *)
+From NV Require Index.DeliveryProofs Index.AsyncRtProofs.
+From NV Require Io.Source Io.Run Io.ProgRun Async.ReadExact Async.CsiRead Async.IndexRead CramIdx.AsyncQuery.
+
+Theorem c17_gzi_roundtrip_any_delivery :
+  forall idx sc cap, N.of_nat (length idx) < 18446744073709551616 -> Forall chunk_ok idx ->
+    fst (ProgRun.run_gzi cap (Source.mkSource (w_gzi idx) sc)) = Run.COk idx.
+Proof. exact DeliveryProofs.gzi_roundtrip_any_delivery. Qed.
+Print Assumptions c17_gzi_roundtrip_any_delivery.
+
+Theorem c17_bai_roundtrip_any_delivery :
+  forall i sc cap, bai_ok i -> fst (ProgRun.run_bai cap (Source.mkSource (w_bai i) sc)) = Run.COk i.
+Proof. exact DeliveryProofs.bai_roundtrip_any_delivery. Qed.
+Print Assumptions c17_bai_roundtrip_any_delivery.
+
+(* the fai reader needs a BufRead: capacity >= 1 *)
+Theorem c17_fai_roundtrip_any_delivery :
+  forall l sc cap, (1 <= cap)%nat -> Forall fai_ok l ->
+    fst (ProgRun.run_fai cap (Source.mkSource (w_fai l) sc)) = Run.COk l.
+Proof. exact DeliveryProofs.fai_roundtrip_any_delivery. Qed.
+Print Assumptions c17_fai_roundtrip_any_delivery.
+
+(* the header parser program (CSI aux block / tabix header) consumes exactly the written header *)
+Theorem c17_header_roundtrip_any_delivery :
+  forall h rest sc cap chunk, header_ok h ->
+    ProgRun.run_csi_header cap chunk (Source.mkSource (w_header h ++ rest) sc)
+    = (Run.COk (norm_header h), length rest).
+Proof. exact DeliveryProofs.header_roundtrip_any_delivery. Qed.
+Print Assumptions c17_header_roundtrip_any_delivery.
+
+(* async readers (any poll script; read_to_end asking for any number of bytes) *)
+Theorem c17_gzi_roundtrip_async :
+  forall idx polls req, N.of_nat (length idx) < 18446744073709551616 -> Forall chunk_ok idx ->
+    fst (AsyncQuery.run_rd Async.ReadExact.aread req Async.ReadExact.a_fuel (IndexRead.p_gzi true)
+           (Async.ReadExact.mkASource (w_gzi idx) polls))
+    = AsyncQuery.RVal (IndexRead.GIndex idx).
+Proof. exact AsyncRtProofs.gzi_roundtrip_async. Qed.
+Print Assumptions c17_gzi_roundtrip_async.
+
+Theorem c17_bai_roundtrip_async :
+  forall i polls req, bai_ok i ->
+    fst (AsyncQuery.run_rd Async.ReadExact.aread req Async.ReadExact.a_fuel (IndexRead.p_bai false)
+           (Async.ReadExact.mkASource (w_bai i) polls))
+    = AsyncQuery.RVal i.
+Proof. exact AsyncRtProofs.bai_roundtrip_async. Qed.
+Print Assumptions c17_bai_roundtrip_async.
+
+(* the written CSI payload has a complete aux block that its header fills exactly -- the domain on
+   which C16 proved the async CSI reader equal to C17's model of the sync one; hence the async
+   reader returns the same re-read index as the sync one, for every poll script *)
+Theorem c17_csi_written_aux_tight : forall i, csi_ok i -> CsiRead.csi_aux_ok (w_csi_bytes i).
+Proof. exact DeliveryProofs.csi_written_aux_ok. Qed.
+Print Assumptions c17_csi_written_aux_tight.
+
+Theorem c17_csi_roundtrip_async :
+  forall i codes chunk, csi_ok i ->
+    CsiRead.async_csi_case codes chunk (w_csi_bytes i) = Some (reread_csi i).
+Proof. exact DeliveryProofs.csi_roundtrip_async. Qed.
+Print Assumptions c17_csi_roundtrip_async.
+
+Example c17_async_example :
+  CsiRead.async_csi_case [1; 0; 2]%nat 3 (w_csi_bytes (mkcsi 14 5 None [mkcref [(585, [(100, 200)])] [(585, 100)] None] None))
+  = Some (mkcsi 14 5 None [mkcref [(585, [(100, 200)])] [(585, 100)] None] None).
+Proof. vm_compute. reflexivity. Qed.
+
+(* ---- optimize_chunks on ARBITRARY chunk lists (hostile but well-formed indexes: duplicate, nested
+   and overlapping chunks, empty chunks start = end, inverted chunks end < start), and for ANY
+   order in which `sort_unstable_by_key(start)` leaves chunks with equal starts: [s] is any
+   permutation of the retained chunks that is sorted by start, [merge_sorted s] the merge loop on
+   it.  The result covers exactly the union of the retained input chunks, is sorted and strictly
+   separated (merged), takes every start and every end from a retained input chunk and is never
+   longer than the retained list. ---- *)
+From Coq Require Import Sorted Permutation.
+From NV Require Import Index.ChunksAny Index.ChunksAnyProofs.
+
+Theorem c17_optimize_chunks_any :
+  forall cs m s,
+    Permutation s (retained m cs) -> StronglySorted le_start s ->
+    let out := merge_sorted s in
+    (forall v, covered out v <-> exists c, In c cs /\ m < cend c /\ covers c v) /\
+    separated out /\
+    (forall o, In o out ->
+       (exists c, In c cs /\ m < cend c /\ cstart o = cstart c) /\
+       (exists c, In c cs /\ m < cend c /\ cend o = cend c)) /\
+    (length out <= length (retained m cs))%nat.
+Proof. exact optimize_chunks_any. Qed.
+Print Assumptions c17_optimize_chunks_any.
+
+(* the model's optimize_chunks (stable insertion sort) is one such order *)
+Theorem c17_optimize_chunks_model_any :
+  forall cs m,
+    optimize_chunks cs m = merge_sorted (sort_by_start (retained m cs)) /\
+    Permutation (sort_by_start (retained m cs)) (retained m cs) /\
+    StronglySorted le_start (sort_by_start (retained m cs)).
+Proof.
+  intros cs m. split; [apply optimize_chunks_is_merge_sorted|]. split; [apply sort_perm|apply sort_sorted].
+Qed.
+Print Assumptions c17_optimize_chunks_model_any.
+
+(* when the retained chunks are proper (start < end) the tie order is immaterial: every sorted
+   permutation gives the list the model computes *)
+Theorem c17_optimize_chunks_sort_independent :
+  forall cs m s,
+    (forall c, In c cs -> m < cend c -> proper c) ->
+    Permutation s (retained m cs) -> StronglySorted le_start s ->
+    merge_sorted s = optimize_chunks cs m.
+Proof. exact optimize_chunks_sort_independent. Qed.
+Print Assumptions c17_optimize_chunks_sort_independent.
+
+(* canonical form: a separated list of proper chunks is determined by the set it covers, hence
+   optimize_chunks is a function of the covered set only (and idempotent on its output) *)
+Theorem c17_separated_proper_unique :
+  forall l1 l2, separated l1 -> separated l2 -> Forall proper l1 -> Forall proper l2 ->
+    (forall v, covered l1 v <-> covered l2 v) -> l1 = l2.
+Proof. exact separated_proper_unique. Qed.
+Print Assumptions c17_separated_proper_unique.
+
+Theorem c17_optimize_chunks_canonical :
+  forall cs1 cs2 m1 m2,
+    (forall c, In c cs1 -> m1 < cend c -> proper c) ->
+    (forall c, In c cs2 -> m2 < cend c -> proper c) ->
+    (forall v, (exists c, In c cs1 /\ m1 < cend c /\ covers c v) <->
+               (exists c, In c cs2 /\ m2 < cend c /\ covers c v)) ->
+    optimize_chunks cs1 m1 = optimize_chunks cs2 m2.
+Proof. exact optimize_chunks_canonical. Qed.
+Print Assumptions c17_optimize_chunks_canonical.
+
+(* non-vacuity: nested + duplicate + empty + inverted chunks; with an inverted chunk the tie order
+   shows in the output (both outputs satisfy c17_optimize_chunks_any) *)
+Example c17_optimize_any_example :
+  optimize_chunks [(10, 90); (20, 30); (20, 30); (40, 40); (95, 93); (5, 12); (91, 92)] 11
+  = [(5, 90); (91, 92); (95, 93)] /\
+  merge_sorted [(5, 3); (5, 8)] = [(5, 3); (5, 8)] /\ merge_sorted [(5, 8); (5, 3)] = [(5, 8)].
+Proof. vm_compute. repeat split; reflexivity. Qed.
+
+(* ---- the CSI loffset re-read on ARBITRARY (hostile but well-formed) references: ANY min_shift and
+   depth (depth 0 included; no bound on min_shift + 3*depth), ANY bin ids -- inside or outside the
+   geometry --, any chunk lists.  The re-read min_offset is never above the original one, so the
+   answer of every query on the re-read index covers the original answer: nothing is lost by
+   write + read.  (Equality needs the ids inside the scheme: c17_csi_reread_min_offset above, which
+   already holds for every depth >= 0 and min_shift with min_shift + 3*depth < 64.) ---- *)
+From NV Require Import Index.CsiLoffsetAnyProofs.
+
+Theorem c17_csi_reread_min_offset_any_le :
+  forall ms d bm lm s,
+    NoDup (map fst lm) ->
+    (forall id, In id (map fst bm) <-> In id (map fst lm)) ->
+    binned_min_offset ms d (reread_loffs bm lm) s <= binned_min_offset ms d lm s.
+Proof. exact csi_reread_min_offset_any_le. Qed.
+Print Assumptions c17_csi_reread_min_offset_any_le.
+
+Theorem c17_csi_reread_query_covers_any :
+  forall ms d bm ln lm qs qe cs,
+    NoDup (map fst lm) ->
+    (forall id, In id (map fst bm) <-> In id (map fst lm)) ->
+    query Binned ms d (mkref bm ln lm) qs qe = Some cs ->
+    exists cs', query Binned ms d (mkref bm ln (reread_loffs bm lm)) qs qe = Some cs' /\
+                forall v, covered cs v -> covered cs' v.
+Proof. exact csi_reread_query_covers_any. Qed.
+Print Assumptions c17_csi_reread_query_covers_any.
+
+(* depth 0 (one bin, id 0): the re-read is the identity on the in-scheme key *)
+Theorem c17_csi_reread_depth0 :
+  forall ms bm lm s,
+    ms < 64 -> NoDup (map fst lm) ->
+    (forall id, In id (map fst bm) <-> In id (map fst lm)) ->
+    (forall id, In id (map fst lm) -> id = 0) ->
+    binned_min_offset ms 0 (reread_loffs bm lm) s = binned_min_offset ms 0 lm s.
+Proof.
+  intros ms bm lm s Hms Hnd Hk H0. apply csi_reread_min_offset; [cbn; lia|exact Hnd|exact Hk|].
+  intros id Hid. rewrite (H0 id Hid). exists O, 0. split; [lia|]. split; reflexivity.
+Qed.
+Print Assumptions c17_csi_reread_depth0.
+
+(* the full statement "the same chunks for every query" is REFUTED for a bin id outside the
+   geometry (known finding csi-bin-outside-geometry-reread-query-grows): the positive theorems are
+   c17_csi_reread_min_offset (ids in the scheme) and c17_csi_reread_query_covers_any (any ids) *)
+Definition c17_csi_reread_query_same_any_full_statement : Prop :=
+  forall ms d bm ln lm qs qe,
+    NoDup (map fst lm) -> (forall id, In id (map fst bm) <-> In id (map fst lm)) ->
+    query Binned ms d (mkref bm ln (reread_loffs bm lm)) qs qe = query Binned ms d (mkref bm ln lm) qs qe.
+
+Theorem c17_csi_reread_out_of_scheme_refuted : ~ c17_csi_reread_query_same_any_full_statement.
+Proof.
+  intros H. destruct csi_reread_out_of_scheme_differs as [Hnd [Hk [Hb Ha]]].
+  specialize (H 14 1%nat hostile_bins [] hostile_loffs 40000 40001 Hnd Hk).
+  rewrite Hb, Ha in H. discriminate H.
+Qed.
+Print Assumptions c17_csi_reread_out_of_scheme_refuted.
+
+(* ---- two more bridges, proved here: (a) the ASYNC tabix reader program (C16's a_tbi: the header is
+   read as a 24 + 4 + l_nm byte slice and parsed off line) returns an index exactly when C17's model
+   of the sync reader does, the same one, on EVERY payload -- the header parser reads its 28 fixed
+   bytes and the l_nm bytes they announce and hands on what follows untouched (c17_header_local);
+   hence the tabix round trip through the async reader under any poll script; (b) the crai line loop
+   (C12's p_crai_text: read_line into a String, the line WITH its LF must be UTF-8) is C17's
+   read_crai on every text -- appending an ASCII byte does not change UTF-8 validity --; hence the
+   crai text round trip under any delivery through a BufReader (gzip stays opaque). ---- *)
+From NV Require Index.TabixAsyncProofs Index.CraiDeliveryProofs.
+From NV Require Io.IndexProg Io.IndexProgProofs Io.Prog.
+
+Theorem c17_header_local :
+  forall x y, (28 <= length x)%nat ->
+    (forall l, TabixAsyncProofs.fv_i32 (le_dec (firstn 4 (skipn 24 x))) = Some l ->
+               (N.to_nat l <= length (skipn 28 x))%nat) ->
+    p_header (x ++ y) = match p_header x with Some (h, r) => Some (h, r ++ y) | None => None end.
+Proof. exact TabixAsyncProofs.p_header_app. Qed.
+Print Assumptions c17_header_local.
+
+Theorem c17_async_tabix_reader_is_read_tbi :
+  forall codes chunk payload, CsiRead.async_tbi_case codes chunk payload = read_tbi payload.
+Proof. exact TabixAsyncProofs.async_tbi_reader_equals_sync. Qed.
+Print Assumptions c17_async_tabix_reader_is_read_tbi.
+
+Theorem c17_tabix_roundtrip_async :
+  forall i codes chunk, tbi_ok i ->
+    CsiRead.async_tbi_case codes chunk (w_tbi_bytes i) = Some (reread_tbi i).
+Proof. exact TabixAsyncProofs.tabix_roundtrip_async. Qed.
+Print Assumptions c17_tabix_roundtrip_async.
+
+Theorem c17_crai_program_is_read_crai :
+  forall d, IndexProgProofs.opt_of (Prog.run_pure (IndexProg.p_crai_text (S (length d))) d) = read_crai d.
+Proof. exact CraiDeliveryProofs.p_crai_text_is_read_crai. Qed.
+Print Assumptions c17_crai_program_is_read_crai.
+
+Theorem c17_crai_roundtrip_any_delivery :
+  forall l sc cap, (1 <= cap)%nat -> Forall crai_ok l ->
+    fst (ProgRun.run_crai_text cap (Source.mkSource (w_crai l) sc)) = Run.COk l.
+Proof. exact CraiDeliveryProofs.crai_roundtrip_any_delivery. Qed.
+Print Assumptions c17_crai_roundtrip_any_delivery.
+
+Example c17_async_tabix_example :
+  let h := mkhdr (FGeneric true) 0 1 (Some 1) 35 0 [[200; 255]; []] in
+  let i := mktbi (Some h) [mkbref [(4681, [(10, 20)])] (Some (mkmeta 10 20 1 0)) [10]] None in
+  CsiRead.async_tbi_case [2; 0; 1]%nat 5 (w_tbi_bytes i) = Some (reread_tbi i).
+Proof. vm_compute. reflexivity. Qed.
